@@ -13,7 +13,7 @@ warnings.filterwarnings("ignore")
 
 THEOREMS = ["Yaw.C16.random_sizes", "Yaw.C16.random_full_chunks", "Yaw.C16.reseed_history_free",
             "Yaw.C16.window_of_monotone", "Yaw.C16.joint_attributes", "Yaw.C16.glue_pinned", "Yaw.C16.seed_invariant",
-            "Yaw.C16.reproducible_after_any_use", "Yaw.C16.flags", "Yaw.C16.reseedTo_fresh", "Yaw.C16.data_size_spec", "Yaw.C16.joint_draw_in_range", "Yaw.C16.data_size_at_init",
+            "Yaw.C16.reproducible_after_any_use", "Yaw.C16.flags", "Yaw.C16.reseedTo_fresh", "Yaw.C16.pass_stream", "Yaw.C16.data_size_spec", "Yaw.C16.joint_draw_in_range", "Yaw.C16.data_size_at_init",
             "Yaw.C16Box.cyl_roundtrip", "Yaw.C16Box.affine_mem", "Yaw.C16Box.box_window", "Yaw.C16Box.preimage_box",
             "Yaw.C16Box.equal_area"]
 RULE = ("BoxRandoms over windows incl. both poles, the full sphere and thin strips x requested sizes around multiples "
